@@ -15,7 +15,7 @@
 From Coq Require Import ZArith List Bool Sorted.
 Require Import Rig.Generated.GenLoad Rig.Model.Base Rig.Model.Regions Rig.Spec.Regions Rig.Model.Load Rig.Spec.Load.
 Require Import Rig.Proofs.LoadMachine Rig.Proofs.LoadCtrl Rig.Proofs.LoadFill Rig.Proofs.LoadLoop
-               Rig.Proofs.LoadWitness Rig.Proofs.LoadFuel Rig.Proofs.Load.
+               Rig.Proofs.LoadWitness Rig.Proofs.LoadFuel Rig.Proofs.LoadTotal Rig.Proofs.Load.
 Import ListNotations.
 Open Scope Z_scope.
 
@@ -198,6 +198,19 @@ Theorem C09_load_requested_waiting_refuted :
     /\ ~ holds bins (w_m w') (a_app a) (if a_wait a then STATE_WAIT else STATE_RUN) b core.
 Proof. exact load_requested_waiting_refuted. Qed.
 
+(* "... otherwise it raises the loading error": under the guards the call raises nothing else -- the model
+   answers Ok (Returned or LoadingError), never OtherError -- provided the machine can be talked to
+   (machine_answers: it has a chip, the vcpu blocks lie in the 32-bit address space, every core is in a
+   state that rig's AppState knows) and the map can be served (map_present: the files exist and fit the
+   address space at the load address, the requested chips exist).  Together with
+   C09_load_returns_iff_loaded this is the property at full strength outside the two refuted regions. *)
+Theorem C09_load_raises_only_loading_error :
+  forall bins c w am a,
+    machine_wf (w_m w) -> ctrl_wf c (w_m w) -> map_wf am -> bins_ok (m_buffer (w_m w)) bins ->
+    0 <= a_app a < 256 -> machine_answers (w_m w) -> map_present bins (w_m w) am ->
+    exists c' w' out atts, load_application bins c w am a = Ok (c', w', out, atts).
+Proof. exact load_application_total. Qed.
+
 (* The model's loop bounds are never reached, for any input: the fuel is not a hidden restriction and
    the three loops of the code terminate. *)
 Theorem C09_load_never_out_of_fuel :
@@ -219,6 +232,10 @@ Example C09_hypotheses_satisfiable :
        /\ length atts = 2%nat
        /\ core_at (w_m w') (1, 0, 3) = Some (mkCore STATE_RUN 30 ex_bin1).
 Proof. exact fresh_example. Qed.
+
+Example C09_total_guards_satisfiable :
+  machine_answers fresh_machine /\ map_present ex_bins fresh_machine k3_map.
+Proof. exact fresh_answers. Qed.
 
 (* The error branch is reachable: chip (1, 0) misses every fill; after n_tries + 1 = 3 attempts the error
    names exactly core (1, 0, 3). *)
